@@ -197,6 +197,7 @@ def run(ctx):
     ctx.count("suite:response-self-consistency", ranr)
     ctx.sample({"suite": "response", "stream": s.hex()})
     run_response_model(ctx)
+    suite_decoded_bodies(ctx)
 
 
 def _resp_runner(sg, lm):
@@ -314,7 +315,84 @@ def run_response_model(ctx):
     ctx.notes.append(f"response-parser-model part: {_t.process_time() - cpu0:.1f}s CPU in this process")
 
 
+def _compressed_bodies(rng):
+    """(token, wire bytes, plain bytes): valid encodings of bodies of several sizes, zlib-wrapped AND raw deflate
+    (aiohttp sniffs the first byte to tell them apart), gzip with one and two members."""
+    import gzip
+    import zlib
+    out = []
+    for plain in (b"", b"a", b"hello world " * 3, bytes(rng.randrange(256) for _ in range(rng.randint(40, 90))), b"z" * 700):
+        out.append((b"deflate", zlib.compress(plain), plain))
+        co = zlib.compressobj(wbits=-15)
+        out.append((b"deflate", co.compress(plain) + co.flush(), plain))
+        out.append((b"gzip", gzip.compress(plain), plain))
+        out.append((b"GZip", gzip.compress(plain[: len(plain) // 2]) + gzip.compress(plain[len(plain) // 2:]), plain))
+    return out
+
+
+def suite_decoded_bodies(ctx):
+    """The DECODED body a parser hands on (auto_decompress, as the client and the server use it) is the same for
+    every segmentation: implementation against itself, request parser and response parser, Content-Length and
+    chunked framing (one chunk, several chunks), every single cut + byte-at-a-time + a few random segmentations."""
+    rng = ctx.rng
+    n = 0
+    for tok, wire, plain in _compressed_bodies(rng):
+        framings = []
+        framings.append((b"Content-Length: %d\r\n" % len(wire), wire))
+        framings.append((b"Transfer-Encoding: chunked\r\n", (b"%x\r\n" % len(wire) + wire + b"\r\n" if wire else b"") + b"0\r\n\r\n"))
+        if len(wire) > 3:
+            a = rng.randint(1, len(wire) - 2)
+            framings.append((b"Transfer-Encoding: chunked\r\n",
+                             b"%x\r\n" % a + wire[:a] + b"\r\n" + b"%x;e=1\r\n" % (len(wire) - a) + wire[a:] + b"\r\n0\r\nX-T: t\r\n\r\n"))
+        for hdr, framed in framings:
+            for parser in ("request", "response"):
+                if parser == "request":
+                    s = b"POST /u HTTP/1.1\r\nHost: h\r\nContent-Encoding: " + tok + b"\r\n" + hdr + b"\r\n" + framed
+                    run = lambda sg, lm: H.impl_run(sg, lm, auto_decompress=True)
+                else:
+                    s = b"HTTP/1.1 200 OK\r\nContent-Encoding: " + tok + b"\r\n" + hdr + b"\r\n" + framed
+                    run = lambda sg, lm: H.impl_run_response(sg, lm, eof=False, auto_decompress=True)
+                lim = H.DEFAULT_LIM
+                one = run([s], lim)
+                ok1 = one["outcome"].startswith("OK") and one["msgs"] and one["msgs"][0]["exc"] is None
+                if ok1 and bytes.fromhex(one["msgs"][0]["data"]) != plain:
+                    ctx.violation({"parser": parser, "stream": s.hex(), "lim": list(lim), "segs": [s.hex()], "kind": "decoded-body"},
+                                  f"{parser} parser: the decoded body ({len(one['msgs'][0]['data']) // 2} bytes) is not what was encoded ({len(plain)} bytes)")
+                start = s.index(b"\r\n\r\n") + 2
+                seglist = [[s[:c], s[c:]] for c in range(start, len(s))] if len(s) < 500 else \
+                          [[s[:c], s[c:]] for c in sorted(set(range(start, min(len(s), start + 60))) | {rng.randrange(start, len(s)) for _ in range(20)})]
+                if len(s) < 300:
+                    seglist.append([s[i:i + 1] for i in range(len(s))])
+                seglist += H.segmentations(rng, s, True)[1:3]
+                for segs1 in seglist:
+                    seg = run(segs1, lim)
+                    n += 1
+                    ctx.case((s, tuple(len(x) for x in segs1), parser, "decoded"), nontrivial=True)
+                    a = [(m["data"], m["eof"], m["exc"]) for m in one["msgs"]]
+                    b = [(m["data"], m["eof"], m["exc"]) for m in seg["msgs"]]
+                    if a != b or one["outcome"].split("@")[0] != seg["outcome"].split("@")[0]:
+                        ctx.violation({"parser": parser, "stream": s.hex(), "lim": list(lim), "segs": [x.hex() for x in segs1],
+                                       "kind": "decoded-body", "one_shot_outcome": one["outcome"], "split_outcome": seg["outcome"]},
+                                      f"{parser} parser, Content-Encoding {tok.decode()}: decoded body / outcome depends on the segmentation: "
+                                      f"one-shot {one['outcome']} {[(len(d) // 2, e, x) for d, e, x in a]}, split {seg['outcome']} {[(len(d) // 2, e, x) for d, e, x in b]}")
+                        break
+    ctx.count("suite:decoded-body-segmentation", n)
+
+
 def replay(ctx, case):
+    if case.get("kind") == "decoded-body":
+        segs = [bytes.fromhex(x) for x in case["segs"]]
+        s = bytes.fromhex(case["stream"])
+        lim = tuple(case["lim"])
+        if case["parser"] == "request":
+            run = lambda sg: H.impl_run(sg, lim, auto_decompress=True)
+        else:
+            run = lambda sg: H.impl_run_response(sg, lim, eof=False, auto_decompress=True)
+        one, seg = run([s]), run(segs)
+        a = [(m["data"], m["eof"], m["exc"]) for m in one["msgs"]]
+        b = [(m["data"], m["eof"], m["exc"]) for m in seg["msgs"]]
+        return {"one_shot": one["outcome"], "split": seg["outcome"],
+                "violates": a != b or one["outcome"].split("@")[0] != seg["outcome"].split("@")[0]}
     s = bytes.fromhex(case["stream"])
     lim = tuple(case["lim"])
     segs = [bytes.fromhex(x) for x in case["segs"]]
